@@ -662,8 +662,8 @@ class _SteppedPatternBuilder(Generic[TResult]):
             result = self.parse_partial(value_cursor)
             if not result.success:
                 return result
-            # Check that we've used up all the text
-            if value_cursor.current != _ValueCursor._NUL:
+            # Check that we've used up all the text (by position: a NUL character inside the text is not its end)
+            if value_cursor.index < value_cursor.length:
                 return ParseResult[TResult]._extra_value_characters(value_cursor, value_cursor.remainder)
             return result
 
